@@ -113,12 +113,15 @@ void ep_norm_sim(ep_t *r, const ep_t *t, int n) {
 	int i;
 	fp_t* a = RLC_ALLOCA(fp_t, n);
 
+	for (i = 0; a != NULL && i < n; i++) {
+		fp_null(a[i]);
+	}
+
 	RLC_TRY {
 		if (a == NULL) {
 			RLC_THROW(ERR_NO_MEMORY);
 		}
 		for (i = 0; i < n; i++) {
-			fp_null(a[i]);
 			fp_new(a[i]);
 			fp_copy(a[i], t[i]->z);
 		}
@@ -142,7 +145,7 @@ void ep_norm_sim(ep_t *r, const ep_t *t, int n) {
 		RLC_THROW(ERR_CAUGHT);
 	}
 	RLC_FINALLY {
-		for (i = 0; i < n; i++) {
+		for (i = 0; a != NULL && i < n; i++) {
 			fp_free(a[i]);
 		}
 		RLC_FREE(a);
